@@ -310,9 +310,8 @@ theorem relay_closed : ∀ (evs : List Ev) (r : Relay), r.open = false → evs.f
   | cons e es ih =>
     intro r h
     rw [List.foldl_cons]
-    cases e <;> simp [relayStep, h] <;> (try exact ih _ h)
-    all_goals (have : ({ r with «open» := false } : Relay) = r := by cases r; simp at h; simp [h])
-    all_goals (rw [this]; exact ih _ h)
+    have : relayStep r e = r := by cases e <;> simp [relayStep, h]
+    rw [this]; exact ih r h
 
 theorem relay_fold : ∀ (evs : List Ev) (r : Relay), r.open = true →
     (evs.foldl relayStep r).toTarget = r.toTarget ++ peerChunks (live evs) ∧
@@ -334,10 +333,70 @@ theorem relay_fold : ∀ (evs : List Ev) (r : Relay), r.open = true →
       simp [relayStep, h, live, isEOF, peerChunks, targetChunks] at this ⊢
       exact this
     | peerEOF =>
-      rw [relay_closed es _ (by simp [relayStep])]
-      simp [relayStep, live, isEOF, peerChunks, targetChunks]
+      rw [relay_closed es _ (by simp [relayStep, h])]
+      simp [relayStep, h, live, isEOF, peerChunks, targetChunks]
     | targetEOF =>
-      rw [relay_closed es _ (by simp [relayStep])]
-      simp [relayStep, live, isEOF, peerChunks, targetChunks]
+      rw [relay_closed es _ (by simp [relayStep, h])]
+      simp [relayStep, h, live, isEOF, peerChunks, targetChunks]
+
+/-- does either side end its stream at all -/
+def anyEOF : List Ev → Bool
+  | [] => false
+  | e :: es => isEOF e || anyEOF es
+
+/-- the first EOF of either side closes BOTH conns (`common.Copy`'s deferred `src.Close(); dst.Close()`); while neither
+side has ended, both stay as they were -/
+theorem relay_closes : ∀ (evs : List Ev) (r : Relay), r.open = true →
+    ((evs.foldl relayStep r).open = !anyEOF evs) ∧
+    (anyEOF evs = true → (evs.foldl relayStep r).peerClosed = true ∧ (evs.foldl relayStep r).targetClosed = true) ∧
+    (anyEOF evs = false → (evs.foldl relayStep r).peerClosed = r.peerClosed ∧ (evs.foldl relayStep r).targetClosed = r.targetClosed) := by
+  intro evs
+  induction evs with
+  | nil => intro r h; simp [anyEOF, h]
+  | cons e es ih =>
+    intro r h
+    rw [List.foldl_cons]
+    cases e with
+    | peer b =>
+      have := ih (relayStep r (.peer b)) (by simp [relayStep, h])
+      simpa [relayStep, h, anyEOF, isEOF] using this
+    | target b =>
+      have := ih (relayStep r (.target b)) (by simp [relayStep, h])
+      simpa [relayStep, h, anyEOF, isEOF] using this
+    | peerEOF =>
+      rw [relay_closed es _ (by simp [relayStep, h])]
+      simp [relayStep, h, anyEOF, isEOF]
+    | targetEOF =>
+      rw [relay_closed es _ (by simp [relayStep, h])]
+      simp [relayStep, h, anyEOF, isEOF]
+
+/-! ### the target's reply, as the property speaks of it -/
+
+/-- everything the target sends before it ends its own stream — whatever the peer does with its sending direction -/
+def targetReply : List Ev → List Bytes
+  | [] => []
+  | .targetEOF :: _ => []
+  | .target b :: es => b :: targetReply es
+  | _ :: es => targetReply es
+
+/-- the peer ends its sending direction (FIN) while the target has not ended its stream -/
+def peerEndsFirst : List Ev → Bool
+  | [] => false
+  | .peerEOF :: _ => true
+  | .targetEOF :: _ => false
+  | _ :: es => peerEndsFirst es
+
+/-- unless the peer half-closes first, "up to the first EOF of either side" IS the target's whole reply -/
+theorem live_reply : ∀ evs : List Ev, peerEndsFirst evs = false → targetChunks (live evs) = targetReply evs := by
+  intro evs
+  induction evs with
+  | nil => intro _; rfl
+  | cons e es ih =>
+    intro h
+    cases e with
+    | peer b => simp [live, isEOF, targetChunks, targetReply, peerEndsFirst] at h ⊢; exact ih h
+    | target b => simp [live, isEOF, targetChunks, targetReply, peerEndsFirst] at h ⊢; exact ih h
+    | peerEOF => simp [peerEndsFirst] at h
+    | targetEOF => simp [live, isEOF, targetChunks, targetReply]
 
 end FPS
